@@ -127,7 +127,7 @@ func setRandom(l leaf, rng *rand.Rand) bool {
 		}
 		f.Set(reflect.ValueOf(m))
 	case *time.Time:
-		t := time.Unix(rng.Int63n(2e9), 0)
+		t := time.Unix(rng.Int63n(2e9), rng.Int63n(1e9)) // with a sub-second part
 		f.Set(reflect.ValueOf(&t))
 	default:
 		if f.Kind() == reflect.Interface {
